@@ -7,6 +7,7 @@ import Lcapy.Proofs.Laplace
 import Lcapy.Model.Laplace
 import Mathlib.Algebra.Order.Field.Basic
 import Mathlib.Tactic.Linarith
+import Mathlib.Tactic.LinearCombination
 namespace Lcapy.Laplace
 variable {K : Type} [Field K] [LinearOrder K] [IsStrictOrderedRing K]
 
@@ -101,5 +102,69 @@ theorem deriv_undef_entry_zic' (env : Env K) (hx : NonPole env.xsig.post env.s) 
       · simp only [signalDerivN, Signal.deriv, L_append, L_deriv env.E env.s _ ih.2.2, ih.2.1, ih.1, pre0]
         simp [Term.L, pw]; ring
   simp only [specValue, sem, Option.map, lcapyTerm, L_smul, derivUndefFormula, hz, if_true, (key n).2.1]
+
+/-! ### derivative of a scaled / shifted undefined function; sifting with an undefined function -/
+
+theorem NonPole_delay_scale {f : ExpPoly K} {s a : K} (T : K) (ha : a ≠ 0) (h : NonPole f (s / a)) :
+    NonPole (delay T (scale a f)) s := by
+  intro x hx
+  simp only [delay, scale, List.map_map, List.mem_map, Function.comp] at hx
+  obtain ⟨y, hy, rfl⟩ := hx
+  cases y with
+  | ep c k p d =>
+    have := h _ hy
+    simp only [Term.scale, Term.delay] at this ⊢
+    intro h0; apply this; field_simp; linear_combination h0
+  | dl c n d => trivial
+
+/-- what the transform of `c·dⁿ/dtⁿ[x(a t + b)]` must be (x causal, delay −b/a ≥ 0): `c · sⁿ · X(s/a)/a · e^{s b/a}` -/
+theorem deriv_undef_at_spec' (env : Env K) (hE : IsExp env.E) (c a b : K) (n : Nat) (ha : a ≠ 0) (hb : b ≤ 0)
+    (hx : NonPole env.xsig.post (env.s / a)) :
+    specValue env (.dundefAt c n a b)
+      = some (c * (Xof env (env.s / a) / a * (if b = 0 then 1 else env.E (env.s * b / a)) * pw env.s n)) := by
+  have hnp := NonPole_delay_scale (-(b / a)) ha hx
+  simp only [specValue, sem, hb, if_true, Option.map, L_smul, (L_derivN env.E env.s n _ hnp).1, L_delay env.E hE,
+    L_scale env.E a _ ha, Xof, pw_eq]
+  by_cases hb0 : b = 0
+  · subst hb0
+    simp only [zero_div, neg_zero, mul_zero, hE.zero, if_true]
+    congr 1; ring
+  · simp only [hb0, if_false]
+    rw [show -(env.s * -(b / a)) = env.s * b / a by ring]
+    congr 1; ring
+
+/-- … and the code computes it exactly when `derivative_undef` applies the similarity/shift theorems to its argument -/
+theorem deriv_undef_at_entry' (env : Env K) (hE : IsExp env.E) (hflag : Gen.derivAppliesShift = true) (hz : env.zic = true)
+    (c a b : K) (n : Nat) (ha : a ≠ 0) (hb : b ≤ 0) (hx : NonPole env.xsig.post (env.s / a)) :
+    specValue env (.dundefAt c n a b) = (lcapyTerm env (.dundefAt c n a b)).2 := by
+  rw [deriv_undef_at_spec' env hE c a b n ha hb hx]
+  simp [lcapyTerm, hz, hflag]
+
+/-- the old form `sⁿ X(s)` is the transform only for the plain argument -/
+theorem deriv_undef_at_plain (env : Env K) (hE : IsExp env.E) (hz : env.zic = true) (c : K) (n : Nat)
+    (hx : NonPole env.xsig.post env.s) :
+    specValue env (.dundefAt c n 1 0) = (lcapyTerm env (.dundefAt c n 1 0)).2 := by
+  rw [deriv_undef_at_spec' env hE c 1 0 n one_ne_zero (le_refl 0) (by simpa using hx)]
+  simp [lcapyTerm, hz]
+
+/-- sifting: `c·x(t)·δ(a t + b)`, `a > 0`, impulse at `τ = −b/a ≥ 0` where `x` is continuous, transforms to `c·x(τ)·e^{−sτ}/a` -/
+theorem delta_undef_spec' (env : Env K) (c a b : K) (h0 : 0 ≤ -(b / a))
+    (hcont : contAt env.xsig.post (-(b / a)) = true) :
+    specValue env (.deltaX c a b)
+      = some (c * evalAt env.E env.xsig.post (-(b / a)) * env.E (-(env.s * -(b / a))) / a) := by
+  simp only [specValue, sem]
+  rw [if_pos h0, if_pos hcont]
+  simp only [Option.map, L_cons, L_nil, Term.L, pw]
+  congr 1; ring
+
+theorem delta_undef_before_origin (env : Env K) (c a b : K) (h0 : ¬ 0 ≤ -(b / a)) :
+    specValue env (.deltaX c a b) = some 0 := by
+  simp [specValue, sem, h0]
+
+theorem delta_undef_entry' (env : Env K) (hflag : Gen.deltaUndefSifts = true) (c a b : K) (h0 : 0 ≤ -(b / a))
+    (hcont : contAt env.xsig.post (-(b / a)) = true) :
+    specValue env (.deltaX c a b) = (lcapyTerm env (.deltaX c a b)).2 := by
+  rw [delta_undef_spec' env c a b h0 hcont]
+  simp [lcapyTerm, hflag, h0]
 
 end Lcapy.Laplace
